@@ -20,7 +20,23 @@ func c36CaseMain(args []string) int {
 		fmt.Println("usage: c36case <route> [dump flags] -- <sql> ...")
 		return 2
 	}
+	if args[0] == "sqlfile" { // c36case sqlfile <file>: `dolt init` + `dolt sql --file <file>` in a fresh repository, then list procedures
+		root, _ := os.MkdirTemp("/var/tmp", "verif-c36case-")
+		defer os.RemoveAll(root)
+		dst, home := filepath.Join(root, "r"), filepath.Join(root, "home")
+		mustCLI(dst, home, "init")
+		abs, _ := filepath.Abs(args[1])
+		code, out := doltCLI(dst, home, "sql", "--file", abs)
+		fmt.Println("dolt sql --file exit", code, truncate(out, 1200))
+		code, out = doltCLI(dst, home, "sql", "-q", "select name from dolt_procedures", "-r", "csv")
+		fmt.Println("procedures:", code, strings.TrimSpace(out))
+		return 0
+	}
 	route := args[0]
+	dbName := "r" // VQUERY_DB overrides the database (= repository directory) name
+	if v := os.Getenv("VQUERY_DB"); v != "" {
+		dbName = v
+	}
 	var flags, stmts []string
 	rest := args[1:]
 	for i, a := range rest {
@@ -32,7 +48,7 @@ func c36CaseMain(args []string) int {
 	if len(stmts) == 4 && stmts[0] == "@case" { // @case <seed> <db index> <table>: the monitor's own statements for that table
 		seed, _ := strconv.ParseInt(stmts[1], 10, 64)
 		i, _ := strconv.Atoi(stmts[2])
-		db := genC36((&rig.Ctx{Seed: seed}).SubRand("c36", i), "r")
+		db := genC36((&rig.Ctx{Seed: seed}).SubRand("c36", i), dbName)
 		if stmts[3] == "*" { // the whole database, schema elements included
 			fmt.Println("dump flags of the case:", db.DumpArg)
 			stmts = nil
@@ -40,6 +56,9 @@ func c36CaseMain(args []string) int {
 				stmts = append(append(stmts, t.createSQL()), t.insertSQL()...)
 			}
 			stmts = append(stmts, db.Extra...)
+			if i%2 == 0 { // like the monitor: even databases are committed before the dump
+				stmts = append(stmts, "call dolt_commit('-Am', 'all')")
+			}
 		} else {
 			t := db.table(stmts[3])
 			if t == nil {
@@ -61,8 +80,8 @@ func c36CaseMain(args []string) int {
 		return 1
 	}
 	x := srv.MustOpen("")
-	x.Exec("create database r")
-	x.Exec("use r")
+	x.Exec("create database " + dbName)
+	x.Exec("use " + dbName)
 	for _, s := range stmts {
 		if err := x.Exec(s); err != nil {
 			fmt.Printf("source: %s: %v\n", truncate(s, 80), err)
@@ -107,7 +126,7 @@ func c36CaseMain(args []string) int {
 	srcEl := procs(x)
 	x.Close()
 	srv.Stop()
-	src, dst := filepath.Join(srcDir, "r"), filepath.Join(root, "dst", "r")
+	src, dst := filepath.Join(srcDir, dbName), filepath.Join(root, "dst", dbName)
 	mustCLI(dst, home, "init")
 	show := func(file string) {
 		b, err := os.ReadFile(file)
@@ -151,7 +170,7 @@ func c36CaseMain(args []string) int {
 		return 1
 	}
 	defer srv2.Stop()
-	y := srv2.MustOpen("r")
+	y := srv2.MustOpen(dbName)
 	defer y.Close()
 	dstRows, _ := read(y)
 	for t, rows := range srcRows {
